@@ -7,6 +7,7 @@ import (
 	"os/exec"
 	"reflect"
 	"runtime"
+	"strings"
 	"sync"
 	"sync/atomic"
 	"testing"
@@ -217,6 +218,7 @@ func runC12(c c12Case) (bool, []string, error) {
 				}
 			}
 			for i, op := range prog {
+				c12Progress.Add(1)
 				if op.Yield {
 					runtime.Gosched()
 				}
@@ -228,7 +230,15 @@ func runC12(c c12Case) (bool, []string, error) {
 		}()
 	}
 	close(start)
-	wg.Wait()
+	if err := c12Wait(&wg); err != nil {
+		if strings.HasPrefix(err.Error(), "deadlock") && c12OnDeadlock != nil {
+			// the goroutines, and whatever lock they wait for, stay as they are: no
+			// further case can run in this process, so the case is reported as it
+			// is (unshrunk) and the process ends here
+			c12OnDeadlock(c, err)
+		}
+		return true, nil, err
+	}
 	close(banks)
 	for b := range banks {
 		b.Close()
@@ -286,6 +296,63 @@ func runC12(c c12Case) (bool, []string, error) {
 }
 
 var c12FreshSeq atomic.Int64
+
+// c12Progress counts operations started, over all goroutines of the running case.
+var c12Progress atomic.Int64
+
+// c12Wait waits for the goroutines of a case. Every operation is finite and
+// short, so a case whose goroutines make no progress at all for a long time while
+// every one of them sits in a lock or semaphore wait is deadlocked: nothing can
+// wake them. That (and only that) is reported as a violation; no progress for
+// any other reason is inconclusive.
+func c12Wait(wg *sync.WaitGroup) error {
+	done := make(chan struct{})
+	go func() { wg.Wait(); close(done) }()
+	last, idle := c12Progress.Load(), 0
+	for {
+		select {
+		case <-done:
+			return nil
+		case <-time.After(2 * time.Second):
+		}
+		if now := c12Progress.Load(); now != last {
+			last, idle = now, 0
+			continue
+		}
+		idle++
+		if idle < 10 {
+			continue
+		}
+		buf := make([]byte, 1<<20)
+		buf = buf[:runtime.Stack(buf, true)]
+		blocked, other := 0, 0
+		for _, g := range strings.Split(string(buf), "\n\n") {
+			if !strings.Contains(g, "checks.runC12.func") && !strings.Contains(g, "checks.c12Run") {
+				continue
+			}
+			head := g
+			if i := strings.IndexByte(g, '\n'); i >= 0 {
+				head = g[:i]
+			}
+			if strings.Contains(head, "[sync.Mutex.Lock") || strings.Contains(head, "[sync.RWMutex.RLock") || strings.Contains(head, "[sync.RWMutex.Lock") ||
+				strings.Contains(head, "[semacquire") || strings.Contains(head, "[sync.WaitGroup.Wait") || strings.Contains(head, "[sync.Cond.Wait") {
+				blocked++
+			} else {
+				other++
+			}
+		}
+		if blocked > 0 && other == 0 {
+			text := string(buf)
+			if len(text) > 6000 {
+				text = text[:6000]
+			}
+			return fmt.Errorf("deadlock: for 20 s none of the case's goroutines started an operation and all %d that remain wait for a lock:\n%s", blocked, text)
+		}
+		if idle > 60 {
+			return fmt.Errorf("VERIF-INCONCLUSIVE no progress for 120 s (%d goroutines blocked on locks, %d in other states)", blocked, other)
+		}
+	}
+}
 
 // c12CheckFresh: the type registered at the start of the goroutine's program is
 // governed by its registered schema and codec.
@@ -546,8 +613,21 @@ func drawC12(t *rapid.T) c12Case {
 func TestC12(t *testing.T) {
 	col := stats.New("C12")
 	col.Rule = c12Rule
+	c12OnDeadlock = func(c c12Case, err error) {
+		col.Record(c, true)
+		col.Flush()
+		stats.WriteFailure("C12", "c12", err.Error(), c)
+		msg := err.Error()
+		if len(msg) > 3000 {
+			msg = msg[:3000]
+		}
+		fmt.Printf("--- FAIL: TestC12\nVERIF-FAIL property=C12 entry=c12: %s\nFAIL\n", msg)
+		os.Exit(1)
+	}
 	propCheck(t, col, "c12", drawC12, runC12)
 }
+
+var c12OnDeadlock func(c12Case, error)
 
 // ---------------------------------------------------------------------------
 // First use: in a FRESH process several goroutines make the first calls to the
